@@ -6,7 +6,7 @@
    the kernel in Oblig/C08_v2_X.v; the failing structures are listed in those statements. *)
 From Coq Require Import List Bool Arith ZArith NArith Init.Byte.
 From HL7 Require Import Lib.Str Model.Ec Model.Result Model.Ref Model.Tree Model.Parser Model.Encode
-                        Model.MsgTree Model.Groups Model.Message Proofs.GroupsFacts.
+                        Model.MsgTree Model.Groups Model.Message Proofs.GroupsFacts Proofs.GroupsEnc Proofs.GroupsMirror.
 From HL7 Require Gen.Tables_v2_3.
 Import ListNotations.
 Open Scope bs_scope.
@@ -70,6 +70,86 @@ Proof.
   unfold parse_segments_grouped_trees in H. now apply find_groups_order in H.
 Qed.
 Print Assumptions C08_same_encoding_segments.
+
+(* ---- soundness.  Vocabulary (Proofs/GroupsFacts.v):
+     declared t pr k n r      the reference pr lists a child of kind k named n whose reference is r
+     groups_by_name t root    table hypothesis: every group row reachable from root is written by
+                              name (it IS the group table's entry of that name) and its name is upper
+                              case; decided by the computable tab_ok (per version: Oblig/C08_v2_X.v)
+     sound_tree .. pr x       x hangs correctly under a parent whose reference is pr:
+                                a group node (g, r, st, children): declared t pr GRP g r, st is the
+                                  structure of r, every child is sound under r;
+                                a segment parsed WITH a reference sr (= placed by the search): it came
+                                  from an input item i and declared t pr SEG (name of i) sr;
+                                a segment parsed without reference (= the search found it nowhere
+                                  between the current level and the top): no constraint.
+   Hence every segment hangs under a chain of groups each of which is a declared child of its
+   parent, and every placed segment is a declared child of its group. ---- *)
+Theorem C08_sound : forall t root names f,
+  groups_by_name t root ->
+  find_groups_names t root names = Ok f ->
+  Forall (sound_tree t str str (fun n => n) (fun n _ => Ok (upper n)) root) f.
+Proof. intros t root names f H. apply find_groups_sound. exact H. Qed.
+Print Assumptions C08_sound.
+
+(* the same with the decidable form of the table hypothesis *)
+Theorem C08_sound_checked : forall t root names f fuel,
+  tab_ok t fuel root = true ->
+  find_groups_names t root names = Ok f ->
+  Forall (sound_tree t str str (fun n => n) (fun n _ => Ok (upper n)) root) f.
+Proof. intros t root names f fuel H. apply C08_sound. now apply (tab_ok_sound t fuel). Qed.
+Print Assumptions C08_sound_checked.
+
+(* on real segments: groups declared, every segment that was parsed with a reference is a declared
+   child named like the first three characters of its piece of text *)
+Theorem C08_sound_segments : forall t lvl e leaf root text f,
+  groups_by_name t root ->
+  parse_segments_grouped_trees t lvl e leaf root text = Ok f ->
+  Forall (sound_tree t str seg (take 3) (seg_of_piece t lvl e leaf) root) f.
+Proof. intros t lvl e leaf root text f H. apply find_groups_sound. exact H. Qed.
+Print Assumptions C08_sound_segments.
+
+(* unplaced segments are exactly those the search does not find.  A segment carries a reference
+   iff the loop reached `parse_segment(..., ref)` with the reference _get_segment_reference returned
+   (C08_sound: it is then a declared child).  Conversely a segment is left without reference only
+   if the search from the MESSAGE reference itself finds its name nowhere: the stack mirrors the
+   chain of open groups exactly, so the last of the len(parents_refs) attempts searches the whole
+   structure.  Needs, besides groups_by_name, that group names are pairwise distinct along every
+   path of the structure (decided by names_distinct, per version in Oblig/C08_v2_X.v).
+     unplaced_ok .. a r :=  r = None -> exists input item i, a is i parsed without reference
+                                        /\ search t search_fuel (name of i) root = Ok None *)
+Theorem C08_unplaced : forall t root names f,
+  groups_by_name t root ->
+  (forall ex, chain t root ex -> NoDup (map fst ex)) ->
+  find_groups_names t root names = Ok f ->
+  Forall (seg_all str (unplaced_ok t str str (fun n => n) (fun n _ => Ok (upper n)) root)) f.
+Proof. intros t root names f H1 H2. now apply find_groups_unplaced. Qed.
+Print Assumptions C08_unplaced.
+
+Theorem C08_unplaced_checked : forall t root names f fuel,
+  tab_ok t fuel root = true -> names_distinct t fuel [] root = true ->
+  find_groups_names t root names = Ok f ->
+  Forall (seg_all str (unplaced_ok t str str (fun n => n) (fun n _ => Ok (upper n)) root)) f.
+Proof.
+  intros t root names f fuel H1 H2. apply C08_unplaced.
+  - now apply (tab_ok_sound t fuel).
+  - intros ex Hc. now apply (names_distinct_sound t fuel [] root H2 ex).
+Qed.
+Print Assumptions C08_unplaced_checked.
+
+(* the same through the model of Group/Message.to_er7 (Model/Message.v, TOLERANT): the grouped
+   children and the flat list of the same parsed segments encode identically, provided each
+   segment encodes (g names the encodings) *)
+Theorem C08_same_encoding_message : forall t lvl e leaf root text f st (g : seg -> str),
+  parse_segments_grouped_trees t lvl e leaf root text = Ok f ->
+  Forall (fun s => enc_segment t e s false = Ok (g s)) (gflatten f) ->
+  enc_children t TOLERANT e st (map node_of f) = enc_children t TOLERANT e st (map NSeg (gflatten f)).
+Proof.
+  intros t lvl e leaf root text f st g H Hg.
+  rewrite (enc_children_tolerant t e g st f Hg), (enc_children_flat t e g st (gflatten f) Hg).
+  f_equal. exact (C08_same_encoding_segments t lvl e leaf root text f g H).
+Qed.
+Print Assumptions C08_same_encoding_message.
 
 (* ---- determinism: the search is a function of (tables, reference, sequence) ---- *)
 Theorem C08_deterministic : forall t root names r1 r2,
